@@ -45,6 +45,8 @@ PALETTE = {
     "sizeof_paren_expr": ("int a = sizeof(b) + 2;", "u.c", {"buffer"}, {"buffer"}),
     "fail_complit_open": ("int a = (int){1;", "v.c", {"buffer", "scopes"}, {"buffer", "scopes"}),
     "paren_expr_first": ("int a = (b) + 1;", "w.c", {"buffer"}, {"buffer"}),
+    "fail_in_body_after_T_lookup": ("typedef int T; void f(void) { T * a; a = ; }", "ab.c", {"scopes", "typedefs", "buffer"}, {"scopes"}),
+    "T_object_same_shape": ("int T; void g(void) { T * a; }", "ac.c", {"typedefs", "buffer"}, {"typedefs", "scopes"}),
     # failures inside a block that has declared a name; later programs use that name as the other kind in their first block
     "fail_in_block_local_typedef": ("void f(void) { typedef int LT; LT x; @", "x.c", {"scopes", "typedefs", "buffer"}, {"scopes"}),
     "LT_is_an_object": ("int LT; void g(void) { LT * 2; }", "y.c", {"typedefs", "buffer"}, {"typedefs", "scopes"}),
